@@ -46,7 +46,7 @@ TECHNIQUE = ("exhaustive enumeration of a finite molecule / lattice / option cat
 TMP_ROOT = os.path.join(core.ROOT, "scratch", "c16_tmp")
 U32 = 2.0 ** -24  # float32 unit round-off (cisd/ucisd cast one doubles contraction to complex64/float32)
 SLACK = 1e-9      # float64 algebra, relative to max(1, |E|)
-N_WORKERS = 8
+N_WORKERS = int(os.environ.get("VERIF_C16_WORKERS", "8"))  # the machine is shared; raise for a dedicated 16-core run
 
 LADDERS = [[0.8, 1.0, 1.3, 1.8], [0.85, 1.05, 1.35, 1.75], [0.9, 1.1, 1.4, 1.7],
            [0.75, 0.95, 1.25, 1.85], [0.82, 1.02, 1.28, 1.9]]
@@ -80,11 +80,12 @@ def lib():
 
 
 @contextlib.contextmanager
-def scratch_dir():
+def scratch_dir(root=None):
     """prep_afqmc / _prep_afqmc read and write FCIDUMP_chol, mo_coeff.npz, amplitudes.npz, options.bin
-    in the CWD: every cell gets its own directory, removed afterwards."""
-    os.makedirs(TMP_ROOT, exist_ok=True)
-    d = tempfile.mkdtemp(prefix="cell_", dir=TMP_ROOT)
+    in the CWD: every cell gets its own directory (under this run's own root), removed afterwards."""
+    root = root or TMP_ROOT
+    os.makedirs(root, exist_ok=True)
+    d = tempfile.mkdtemp(prefix="cell_", dir=root)
     cwd = os.getcwd()
     os.chdir(d)
     try:
@@ -374,8 +375,8 @@ def system_list(tier, seed):
             ("H4r", "sto-3g", 2), ("LiH", "sto-3g", 2), ("OH", "sto-3g", 3), ("H4c", "6-31g", 0),
             ("H4r", "6-31g", 0), ("LiH", "6-31g", 0), ("OH", "6-31g", 1)]
     for name, basis, spin in mols:
-        for s in scales:
-            out.append(dict(kind="mol", name=name, basis=basis, spin=spin, scale=s))
+        for i, s in enumerate(scales):
+            out.append(dict(kind="mol", name=name, basis=basis, spin=spin, scale=s, scale_i=i))
     for shape, n in [("chain", 2), ("chain", 3), ("ring", 3), ("chain", 4), ("ring", 4), ("chain", 5),
                      ("ring", 5), ("chain", 6), ("ring", 6)]:
         for U in (1.0, 4.0, 8.0):
@@ -385,8 +386,8 @@ def system_list(tier, seed):
             for f in fills:
                 out.append(dict(kind="hub", shape=shape, n=n, U=U, nelec=list(f)))
     for name, spin in [("H2", 0), ("H4c", 0), ("H4c", 2), ("LiH", 0)]:
-        for s in scales:
-            out.append(dict(kind="molint", name=name, basis="sto-3g", spin=spin, scale=s))
+        for i, s in enumerate(scales):
+            out.append(dict(kind="molint", name=name, basis="sto-3g", spin=spin, scale=s, scale_i=i))
     return out
 
 
@@ -395,8 +396,9 @@ def cells_of_system(sd, tier):
 
     Full product mean field x norb_frozen x {3 thresholds, DF} x basis_coeff letter for the minimal-basis
     molecules; the letters that only repeat another one are crossed with a reduced set: the ROHF class on a
-    closed shell (same orbitals as RHF), the second high-spin state of a molecule, 6-31G (one threshold + DF, two basis letters), lattice models
-    (threshold axis with the examples' basis_coeff=eye; the other basis letters and CC at U=4 resp. U in {1,4})."""
+    closed shell (same orbitals as RHF), the second high-spin state of a molecule, the first and third rung of
+    the geometry ladder (the full product runs on the second = equilibrium and fourth = stretched rung), 6-31G (one threshold + DF, two basis letters), lattice models
+    (threshold axis at U=4 with the examples' basis_coeff=eye; the other basis letters and CC at U=4 resp. U in {1,4})."""
     na, nb = _nelec_of(sd)
     nao = _nao_of(sd)
     path = "integrals" if sd["kind"] in ("hub", "molint") else "mol"
@@ -405,11 +407,11 @@ def cells_of_system(sd, tier):
     mfs = ["rhf", "uhf", "rohf"] if na == nb else ["rohf", "uhf"]
     out = []
     for mfk in mfs:
-        minor = (mfk == "rohf" and na == nb) or \
+        minor = (mfk == "rohf" and na == nb) or sd.get("scale_i", 1) in (0, 2) or \
             (sd["kind"] == "mol" and (sd["name"], sd["spin"]) in (("H2", 2), ("H4r", 2), ("LiH", 2), ("OH", 3)))
         for fr in (0, 1):
             if path == "integrals":
-                eris = [("exact", c) for c in CUTS]
+                eris = [("exact", c) for c in CUTS] if not (minor or sd.get("U", 4.0) != 4.0) else [("exact", 1e-6)]
             elif small and not minor:
                 eris = [("exact", c) for c in CUTS] + [("df", None)]
             else:
@@ -440,7 +442,10 @@ def cells_of_system(sd, tier):
 
 
 def options_of(cell):
-    """walker_type x trial combinations for which the written files define a trial."""
+    """walker_type x trial combinations for which the written files define a trial.  The full cross is run
+    on the cells with the interface's default orbital basis (basis_coeff=eye on the `integrals` path, as in
+    the examples); the other basis_coeff letters change the written files, not the option handling, and get
+    each trial once with its natural walker type plus the mixed pair uhf-trial/rhf-walkers."""
     na, nb = cell["nelec"]
     trials = []
     if na == nb and cell["mf"] in ("rhf", "rohf"):
@@ -450,9 +455,13 @@ def options_of(cell):
         trials = ["cisd"] + trials[:1]
     if cell["cc"] == "uccsd":
         trials = ["ucisd", "uhf"]
-    return [dict(walker_type=w, trial=t) for t in trials for w in ("rhf", "uhf")]
-
-
+    out = [dict(walker_type=w, trial=t) for t in trials for w in ("rhf", "uhf")]
+    primary = cell["bas"] == ("eye" if cell["path"] == "integrals" else "default") or cell["cc"]
+    if not primary:
+        out = [o for o in out if (o["trial"], o["walker_type"]) in (("rhf", "rhf"), ("uhf", "uhf"), ("uhf", "rhf"))]
+        if "rhf" in trials:
+            out = [o for o in out if (o["trial"], o["walker_type"]) != ("uhf", "rhf")]
+    return out
 
 
 def letters_of(cell, scales):
@@ -523,7 +532,17 @@ def build_jobs(tier, seed):
             cells.append(c)
     n_full = len(cells)
     if tier != "thorough":
-        cells = quick_subset(cells, scales)
+        sel = quick_subset(cells, scales)
+        # plus the most sensitive cell of each coupled-cluster kind (tightest threshold, most polarised / frozen system)
+        def sentinel(c):
+            sd = c["sys"]
+            if sd["kind"] != "mol" or c["cut"] != 1e-8 or sd["basis"] != "sto-3g":
+                return False
+            return (sd["name"], sd["spin"], sd["scale"], c["mf"], c["cc"], c["frozen"]) in (
+                ("OH", 1, scales[1], "rohf", "uccsd", 0), ("H4c", 0, scales[3], "uhf", "uccsd", 0),
+                ("LiH", 0, scales[1], "rhf", "ccsd", 1))
+        ids = {id(c) for c in sel}
+        cells = sel + [c for c in cells if sentinel(c) and id(c) not in ids]
     jobs = {}
     for c in cells:
         jobs.setdefault(c["si"], []).append(c)
@@ -540,31 +559,47 @@ def build_jobs(tier, seed):
 
 
 # ----------------------------------------------------------------------------- bounds
-def bounds(cell, Cocc, Call, Bact, amps):
-    """First-principles energy tolerances.
+def bounds(cell, wa, wb, Bact, amps):
+    """First-principles energy tolerances (wa, wb: 1-norms |c_p|_1 of the ACTIVE mean-field orbitals of
+    each spin in the decomposition basis, occupied first; Bact: the written orbital basis).
 
     delta = Cholesky threshold: the residual R = ERI - L^T L of a pivoted Cholesky decomposition is
-    positive semidefinite with 0 <= diag <= delta, so |R_ij| <= delta in the decomposition basis and
-    |R(pq,rs)| <= delta |c_p|_1 |c_q|_1 |c_r|_1 |c_s|_1 for orbitals expanded in that basis.
-      determinant (N = n_a + n_b electrons, occupied orbital 1-norms <= m):
-         |dE| = |1/2 sum_ij [R(ii,jj) - R(ij,ji) same spin]| <= 1/2 (N^2 + n_a^2 + n_b^2) delta m^4
-      any N-electron state (FCI): R = sum_k v_k v_k^T,  dH = 1/2 sum_k (V_k^2 - onebody(v_k^2)),
-         ||V_k|| <= N ||v_k||_F,  sum_k ||v_k||_F^2 = tr R <= delta (sum_p |b_p|_1^2)^2
-         |dE0| <= 1/2 (N^2 + N) delta (sum_p |b_p|_1^2)^2          (b_p: written orbital basis)
-      CC mixed energy: determinant bound + delta M^4 (3 sum|tau| + 3 N sum|t1|), M the largest 1-norm
-         of any active orbital; plus the float32 contraction of the doubles term in cisd/ucisd.
+    positive semidefinite with 0 <= diag <= delta, so |R_ij| <= delta in the decomposition basis and, R being
+    PSD in every basis, |R(pq,rs)| <= sqrt(R(pq,pq) R(rs,rs)) <= delta w_p w_q w_r w_s  with  w_p = |c_p|_1.
+      determinant:  dE = 1/2 sum_{i,j all spins} R(ii,jj) - 1/2 sum_{i,j same spin} R(ij,ji)
+         |dE| <= delta/2 [ (A+B)^2 + A^2 + B^2 ],  A = sum_{i in occ alpha} w_i^2,  B likewise for beta
+      exact ground state: R = sum_k v_k v_k^T (PSD), H - H_written = dH = 1/2 sum_k V_k^2 - 1/2 sum_ps K_ps E_ps with
+         V_k = sum v_k,pq E_pq and K_ps = sum_q R(pq,qs) PSD.  By the variational principle on both sides
+         -1/2 tr(K gamma) <= E0(H) - E0(H_written) <= 1/2 sum_k <V_k^2>.  A one-body operator takes its extreme
+         values on determinants of its own eigen-orbitals with occupations n_p in {0,1,2}, sum n_p = N, so
+         ||V_k||^2 <= (sum n_p^2)(sum lambda_p^2) <= 2N ||v_k||_F^2;  sum_k ||v_k||_F^2 = tr R = tr K;  gamma <= 2:
+         |dE0| <= N tr R <= N delta (sum_p |b_p|_1^2)^2              (b_p: written orbital basis, active space)
+      CC mixed energy at the reference (linear in H): determinant bound
+         + doubles   sum tau_ijab [2 R(ia,jb) - R(ib,ja)]            <= 3 delta sum |tau_ijab| w_i w_a w_j w_b
+           (UCCSD: 1/4 sum tau_aa <ij||ab> + 1/4 sum tau_bb <ij||ab> + sum tau_ab (ia|jb) accordingly)
+         + singles   sum_s sum_ia t_ia dF_ia,  |dF_ia| <= delta w_i w_a (A + B + same-spin sum)
+         + the float32 contraction of the doubles term inside cisd/ucisd (added where the trial is known).
     Density fitting: both sides use the same DF Hamiltonian, delta = 0."""
     delta = 0.0 if cell["eri"] == "df" else float(cell["cut"])
     na, nb = cell["nelec"][0] - cell["frozen"], cell["nelec"][1] - cell["frozen"]
     N = na + nb
-    m = max([np.abs(c).sum(0).max() for c in Cocc if c.shape[1]] or [0.0])
-    M = max(np.abs(c).sum(0).max() for c in Call)
+    A, Bb = float((wa[:na] ** 2).sum()), float((wb[:nb] ** 2).sum())
     T = float((np.abs(Bact).sum(0) ** 2).sum())
     b = dict(delta=delta)
-    b["scf"] = 0.5 * (N * N + na * na + nb * nb) * delta * m ** 4
-    b["fci"] = 0.5 * (N * N + N) * delta * T * T
+    b["scf"] = 0.5 * delta * ((A + Bb) ** 2 + A * A + Bb * Bb)
+    b["fci"] = max(N, 1) * delta * T * T
     if amps is not None:
-        b["cc"] = b["scf"] + delta * M ** 4 * (3.0 * amps["sum_tau"] + 3.0 * N * amps["sum_t1"])
+        oa, va, ob, vb = wa[:na], wa[na:], wb[:nb], wb[nb:]
+        if amps["kind"] == "ccsd":
+            d = 3.0 * np.einsum("ijab,i,j,a,b->", np.abs(amps["tau"]), oa, oa, va, va)
+            s1 = 2.0 * np.einsum("ia,i,a->", np.abs(amps["t1"]), oa, va) * (A + Bb + A)
+        else:
+            d = 0.5 * np.einsum("ijab,i,j,a,b->", np.abs(amps["tau_aa"]), oa, oa, va, va) \
+                + 0.5 * np.einsum("ijab,i,j,a,b->", np.abs(amps["tau_bb"]), ob, ob, vb, vb) \
+                + np.einsum("ijab,i,j,a,b->", np.abs(amps["tau_ab"]), oa, ob, va, vb)
+            s1 = np.einsum("ia,i,a->", np.abs(amps["t1a"]), oa, va) * (A + Bb + A) \
+                + np.einsum("ia,i,a->", np.abs(amps["t1b"]), ob, vb) * (A + Bb + Bb)
+        b["cc"] = b["scf"] + delta * float(d + s1)
     return b
 
 
@@ -595,10 +630,21 @@ def basis_matrix(cell, sysobj, mf, seed):
 
 
 def occupied_blocks(mf, nelec):
+    """pyscf's occupied orbitals of each spin (selected by mo_occ, not by position) and the full orbital
+    sets reordered occupied-first."""
     mo = np.asarray(mf.mo_coeff)
+    occ = np.asarray(mf.mo_occ)
     if mo.ndim == 3:
-        return mo[0][:, : nelec[0]], mo[1][:, : nelec[1]], [mo[0], mo[1]]
-    return mo[:, : nelec[0]], mo[:, : nelec[1]], [mo]
+        oa, ob = occ[0] > 0, occ[1] > 0
+        ma, mb = mo[0], mo[1]
+    else:
+        oa, ob = occ > 0, occ > 1
+        ma = mb = mo
+    if int(oa.sum()) != nelec[0] or int(ob.sum()) != nelec[1]:
+        raise RuntimeError("pyscf occupation numbers do not match mol.nelec")
+    sa = np.argsort(~oa, kind="stable")
+    sb = np.argsort(~ob, kind="stable")
+    return ma[:, oa], mb[:, ob], [ma[:, sa], mb[:, sb]]
 
 
 def aufbau(mf):
@@ -646,13 +692,13 @@ def minimal_signatures(violations):
 
     groups = {}
     for v in violations:
-        if not v["signature"].startswith(("written-", "header/", "_prep_afqmc/")):
+        if not v["signature"].startswith(("written-", "header/", "_prep_afqmc/", "prep_afqmc/")):
             continue
         k, flags = parse(v["signature"])
         groups.setdefault(k, set()).add(flags)
     keep = []
     for v in violations:
-        if v["signature"].startswith(("written-", "header/", "_prep_afqmc/")):
+        if v["signature"].startswith(("written-", "header/", "_prep_afqmc/", "prep_afqmc/")):
             k, flags = parse(v["signature"])
             if any(o < flags for o in groups[k]):
                 continue
@@ -660,7 +706,7 @@ def minimal_signatures(violations):
     return keep
 
 
-def eval_cell(cell, sysobj, seed, res=None):
+def eval_cell(cell, sysobj, seed, res=None, tmp_root=None):
     """Run ONE catalogue cell through the real pipeline; returns (violations, info)."""
     pi, mj, jnp = lib()
     res = res if res is not None else Result()
@@ -670,9 +716,14 @@ def eval_cell(cell, sysobj, seed, res=None):
     fr = cell["frozen"]
     na_act, nb_act = na - fr, nb - fr
     mf = sysobj.mf(cell["mf"], cell["eri"])
-    if not aufbau(mf):  # the interface (documentedly) takes the first n columns as occupied
-        res.guard("outside_domain_non_aufbau_mo_occ")
-        return viol, {}
+    is_aufbau = aufbau(mf)
+    if not is_aufbau:  # pyscf may return e.g. mo_occ = [2, 0, 1] (ROHF, degenerate open shell on a lattice)
+        if cell["cc"]:
+            # pyscf's own CC modules slice mo_coeff[:, :nocc] as occupied, i.e. correlate a different determinant
+            # than the SCF one: the oracle itself is not valid on such a reference
+            res.guard("outside_domain_cc_on_non_aufbau_reference")
+            return viol, {}
+        res.guard("cells_with_non_aufbau_mo_occ")
     # pyscf's energy functional on pyscf's orbitals (equals mf.e_tot; also meaningful if the SCF stopped early)
     e_scf = float(mf.energy_tot(mf.make_rdm1()))
     ccobj = e_cc = amps = None
@@ -680,19 +731,20 @@ def eval_cell(cell, sysobj, seed, res=None):
         ccobj, e_cc = sysobj.cc(cell["cc"], cell["mf"], cell["eri"], fr)
         if cell["cc"] == "ccsd":
             t1, t2 = np.asarray(ccobj.t1), np.asarray(ccobj.t2)
-            tau = t2 + np.einsum("ia,jb->ijab", t1, t1)
-            amps = dict(sum_tau=float(np.abs(tau).sum()), sum_t1=float(np.abs(t1).sum()))
+            amps = dict(kind="ccsd", t1=t1, tau=t2 + np.einsum("ia,jb->ijab", t1, t1))
         else:
             t1a, t1b = ccobj.t1
             taa, tab, tbb = ccobj.t2
-            s = 0.5 * np.abs(taa + 2 * np.einsum("ia,jb->ijab", t1a, t1a)).sum() \
-                + 0.5 * np.abs(tbb + 2 * np.einsum("ia,jb->ijab", t1b, t1b)).sum() \
-                + np.abs(tab + np.einsum("ia,jb->ijab", t1a, t1b)).sum()
-            amps = dict(sum_tau=float(s), sum_t1=float(np.abs(t1a).sum() + np.abs(t1b).sum()))
+            amps = dict(kind="uccsd", t1a=np.asarray(t1a), t1b=np.asarray(t1b),
+                        tau_aa=taa + 2 * np.einsum("ia,jb->ijab", t1a, t1a),
+                        tau_bb=tbb + 2 * np.einsum("ia,jb->ijab", t1b, t1b),
+                        tau_ab=tab + np.einsum("ia,jb->ijab", t1a, t1b))
     mf_used = ccobj._scf if ccobj is not None else mf  # UCCSD on an ROHF reference converts it to UHF
     arg_basis, B = basis_matrix(cell, sysobj, mf_used, seed)
     Ca_occ, Cb_occ, Call = occupied_blocks(mf_used, (na, nb))
-    bnd = bounds(cell, [Ca_occ[:, fr:], Cb_occ[:, fr:]], [c[:, fr:] for c in Call] + [B[:, fr:]], B[:, fr:], amps)
+    w_a = np.abs(Call[0][:, fr:]).sum(0)
+    w_b = np.abs(Call[-1][:, fr:]).sum(0)
+    bnd = bounds(cell, w_a, w_b, B[:, fr:], amps)
 
     # --- reference Hamiltonian in the basis B and its exact ground state (pyscf) -----------------
     hB = B.T @ sysobj.hcore(mf_used) @ B
@@ -714,7 +766,7 @@ def eval_cell(cell, sysobj, seed, res=None):
 
     info = dict(e_scf=e_scf, e_fci_ref=e_fci_ref, e_cc=e_cc, bounds=bnd)
     pc = path_class(cell)
-    with scratch_dir():
+    with scratch_dir(tmp_root):
         kw = dict(norb_frozen=fr, chol_cut=cell["cut"] if cell["cut"] else 1e-5)
         if arg_basis is not None:
             kw["basis_coeff"] = arg_basis
@@ -722,10 +774,16 @@ def eval_cell(cell, sysobj, seed, res=None):
             kw["integrals"] = sysobj.integrals
         if ccobj is not None:
             kw.pop("norb_frozen")  # the interface takes it from cc.frozen
-        with quiet():
-            pi.prep_afqmc(ccobj if ccobj is not None else mf, **kw)
+        try:
+            with quiet():
+                pi.prep_afqmc(ccobj if ccobj is not None else mf, **kw)
+            header, w_h0, w_h1, w_chol, w_mo = read_files()
+        except Exception as e:  # noqa: BLE001 -- an admitted cell the interface cannot prepare describes no problem at all
+            res.add(states=1, transitions=1, traces=1)
+            viol.append(("prep_afqmc/%s:raises-%s" % (pc, type(e).__name__), dict(what="prep"),
+                         dict(error="%s: %s" % (type(e).__name__, str(e)[:300]))))
+            return viol, info
         res.add(traces=1)
-        header, w_h0, w_h1, w_chol, w_mo = read_files()
 
         # (4) header bookkeeping ------------------------------------------------------------------
         exp_header = [na_act + nb_act, nact, na - nb, w_chol.shape[0]]
@@ -737,6 +795,23 @@ def eval_cell(cell, sysobj, seed, res=None):
         # (2) exact ground state of the written Hamiltonian -------------------------------------------
         w_eri = np.einsum("gpq,grs->pqrs", w_chol, w_chol, optimize=True)
         hsym = 0.5 * (w_h1 + w_h1.T)
+
+        def ham_piece():
+            """Label only, consulted after an energy comparison has failed: which written piece differs from the
+            reference Hamiltonian in the written basis (ERI elementwise bound: delta |b_p|_1 |b_q|_1 |b_r|_1 |b_s|_1)."""
+            if w_h1.shape != r_h1.shape:
+                return "shape"
+            if not is_aufbau:
+                return None  # the interface may legitimately order the orbitals differently from the reference basis B
+            l1 = np.abs(B[:, fr:]).sum(0)
+            eb = bnd["delta"] * np.einsum("p,q,r,s->pqrs", l1, l1, l1, l1) + 1e-8
+            if abs(w_h0 - r_h0) > 1e-8 * max(1.0, abs(r_h0)):
+                return "energy_core"
+            if np.abs(hsym - r_h1).max() > 1e-8 * max(1.0, np.abs(r_h1).max()):
+                return "hcore"
+            if np.any(np.abs(w_eri - r_eri) > eb):
+                return "chol"
+            return None
         fci_ok = None
         if header[1] == nact and header[0] == na_act + nb_act:
             e_fci_w = lowest_eigenvalue(w_h0, hsym, w_eri, nact, (na_act, nb_act))
@@ -753,14 +828,11 @@ def eval_cell(cell, sysobj, seed, res=None):
             res.guard("fci_compared")
             info.update(e_fci_written=e_fci_w, fci_err=err, fci_tol=tol)
             if not fci_ok:
-                # label only (the verdict is the energy): which written piece differs from the reference
-                d0, d1, d2 = abs(w_h0 - r_h0), float(np.abs(hsym - r_h1).max()), float(np.abs(w_eri - r_eri).max())
-                piece = "energy_core" if d0 > max(tol, 1e-8) else "hcore" if d1 > max(tol, 1e-8) else \
-                    "chol" if d2 > bnd["delta"] * max(np.abs(B[:, fr:]).sum(0).max() ** 4, 1.0) + 1e-8 else "ground-state-energy"
-                viol.append(("written-hamiltonian[%s]/%s:fci!=pyscf" % (piece, pc), dict(what="fci"),
-                             dict(e_written=e_fci_w, e_pyscf=e_fci_ref, err=err, tol=tol,
-                                  h0_written=w_h0, h0_ref=r_h0, max_dh1=float(np.abs(hsym - r_h1).max()),
-                                  max_deri=float(np.abs(w_eri - r_eri).max()), nchol=int(w_chol.shape[0]))))
+                viol.append(("written-hamiltonian[%s]/%s:energy!=pyscf" % (ham_piece(), pc), dict(what="fci"),
+                             dict(which="lowest eigenvalue of the written (h0,h1,chol) vs pyscf FCI/CASCI", e_written=e_fci_w,
+                                  e_pyscf=e_fci_ref, err=err, tol=tol, h0_written=w_h0, h0_ref=r_h0,
+                                  max_dh1=float(np.abs(hsym - r_h1).max()), max_deri=float(np.abs(w_eri - r_eri).max()),
+                                  nchol=int(w_chol.shape[0]))))
 
         # (1), (3) options of the set-up routine ----------------------------------------------------
         opts = options_of(cell)
@@ -864,12 +936,19 @@ def eval_cell(cell, sysobj, seed, res=None):
                     continue  # consequence of the wrong Hamiltonian already reported
                 other = outcomes.get((tr, "uhf" if wt == "rhf" else "rhf"), ("none",))
                 target_name = "E_CC" if tr in ("cisd", "ucisd") else "E_SCF"
-                if other[0] == "ok":
+                piece = ham_piece() if fci_ok else None
+                if piece:  # the exact energy happened to stay inside its (looser) bound
+                    sig = "written-hamiltonian[%s]/%s:energy!=pyscf" % (piece, pc)
+                    oc[1]["which"] = "%s of the %s trial with %s walkers vs pyscf" % (target_name, tr, wt)
+                elif other[0] == "ok":
                     sig = "energy-evaluation/%s-trial/%s-walkers:!=%s" % (tr, wt, target_name)
                 elif tr in ("cisd", "ucisd"):
                     sig = "written-amplitudes/%s/%s:mixed-energy!=E_CC" % (cell["cc"], pc)
                 else:
                     sig = "written-trial/%s-mf/%s-trial/%s:variational-energy!=E_SCF" % (cell["mf"], tr, pc)
+                if not piece and not is_aufbau and other[0] != "ok":
+                    sig = "written-trial/%s-mf:mo_occ-not-aufbau-leading-columns-taken-as-occupied" % cell["mf"]
+                    oc[1]["mo_occ"] = np.asarray(mf_used.mo_occ)
                 viol.append((sig, dict(what="option", option=opt), oc[1]))
         info["outcomes"] = {"%s/%s" % k: v for k, v in outcomes.items()}
     return viol, info
@@ -904,7 +983,7 @@ def job(j):
     res = Result()
     sysobj = System(j["sys"])
     for cell in j["cells"]:
-        viol, info = eval_cell(cell, sysobj, j["seed"], res)
+        viol, info = eval_cell(cell, sysobj, j["seed"], res, j.get("tmp"))
         if n_maps() > 20000:
             release_compiled()
         seen = set()
@@ -930,15 +1009,20 @@ def run(ctx):
                 "distinct = distinct (reference energy, option, path letters)")
     ctx.assume("pyscf 2.14 SCF / FCI / CCSD are correct and independent of ad_afqmc (the oracle)")
     ctx.assume("energy tolerances follow from the pivoted-Cholesky residual bound (PSD, diagonal <= chol_cut) -- see bounds()")
-    ctx.assume("mean-field orbitals are aufbau ordered (pre-checked on pyscf's mo_occ; otherwise the cell is outside the domain)")
     jobs, n_full, n_sel = build_jobs(ctx.tier, ctx.seed)
     if ctx.tier != "thorough":
-        ctx.cap("quick tier: %d of the %d admitted cells (greedy pairwise covering array); the thorough tier runs all" % (n_sel, n_full))
+        ctx.cap("quick tier: %d of the %d admitted cells (greedy pairwise covering array + 3 coupled-cluster sentinels); the thorough tier runs all" % (n_sel, n_full))
     ctx.guard("cells_selected", n_sel)
-    ctx.pmap(job, jobs, workers=min(N_WORKERS, ctx.workers))
+    os.makedirs(TMP_ROOT, exist_ok=True)
+    run_root = tempfile.mkdtemp(prefix="run_", dir=TMP_ROOT)  # concurrent runs never share or delete each other's files
+    try:
+        ctx.pmap(job, [dict(j, tmp=run_root) for j in jobs], workers=min(N_WORKERS, ctx.workers))
+    finally:
+        shutil.rmtree(run_root, ignore_errors=True)
+        with contextlib.suppress(OSError):
+            os.rmdir(TMP_ROOT)
     ctx.violations.sort(key=lambda v: complexity(core.dec(v["case"])))
     ctx.violations[:] = minimal_signatures(ctx.violations)
-    shutil.rmtree(TMP_ROOT, ignore_errors=True)
     ctx.require_guard("fci_compared", "energy_compared[rhf/rhf]", "energy_compared[uhf/uhf]", "energy_compared[uhf/rhf]",
                       "energy_compared[cisd/rhf]", "energy_compared[ucisd/uhf]", "cc_correlation_energy_nontrivial",
                       "fci_cross_checked_with_fock_model")
@@ -949,7 +1033,14 @@ def replay(case):
     cell = case["cell"]
     cell["nelec"] = [int(x) for x in np.asarray(cell["nelec"]).tolist()]
     sysobj = System(cell["sys"])
-    viol, info = eval_cell(cell, sysobj, int(case["seed"]))
+    os.makedirs(TMP_ROOT, exist_ok=True)
+    root = tempfile.mkdtemp(prefix="replay_", dir=TMP_ROOT)
+    try:
+        viol, info = eval_cell(cell, sysobj, int(case["seed"]), tmp_root=root)
+    finally:
+        shutil.rmtree(root, ignore_errors=True)
+        with contextlib.suppress(OSError):
+            os.rmdir(TMP_ROOT)
     hits = [(s, d) for s, w, d in viol if s == case["signature"]]
     detail = dict(signature=case["signature"], found=[s for s, _, _ in viol])
     if hits:
